@@ -379,7 +379,7 @@ class AddMissingOptional4(V4Contract):
         o, v = ctx.data["self"], ctx.data["v4"]
         om, m = o.fields.get("original_metrics"), o.fields.get("metrics")
         if not (isinstance(om, SMap) and isinstance(m, SMap)):
-            ctx.fail("post:maps", "original_metrics / metrics are not metric maps after the call")
+            ctx.fail("post:maps", "original_metrics / metrics are not metric maps after the call", status="unknown")
             return
         ctx.prove("post:original==O", map_equal(om.dom, om.val, v.o.dom, v.o.val, v4.ORDER), "original_metrics is a copy of the parsed map")
         fd_, fv_ = fill_map4(v.o)
